@@ -52,11 +52,11 @@ theorem inv_step {s s' : State} {e : Event} {o : Out} (h : Inv s) (hs : step s e
   | close =>
     simp only [step] at hs; cases hs
     exact ⟨h.nodup, h.started, h.huntStarted, h.repliesStarted, h.fresh⟩
-  | stopHunt mac =>
+  | stopHunt mac _ip =>
     simp only [step] at hs; cases hs
     exact ⟨h.nodup.erase mac, h.started, fun m hm => h.huntStarted m (List.mem_of_mem_erase hm),
       h.repliesStarted, h.fresh⟩
-  | rxRequest smac tr =>
+  | rxRequest _esrc smac tr =>
     simp only [step] at hs
     split at hs
     · rename_i hc
@@ -236,7 +236,7 @@ theorem blocked_step {s s' : State} {e : Event} {o : Out} (i : Nat) (hi : i < s.
   | rxProbe a b c d =>
     simp only [step] at hs
     split at hs <;> (cases hs; exact keep _ rfl (fun _ h => h) rfl rfl (by simp) (by simp))
-  | rxRequest a b =>
+  | rxRequest _e a b =>
     simp only [step] at hs
     split at hs <;> (cases hs; exact keep _ rfl (fun _ h => h) rfl rfl (by simp) (by simp))
   | reply a =>
@@ -247,7 +247,7 @@ theorem blocked_step {s s' : State} {e : Event} {o : Out} (i : Nat) (hi : i < s.
   | close =>
     simp only [step] at hs; cases hs
     exact stepOK_frame hi hb rfl (fun _ h => h) (fun _ => rfl) (fun _ => Or.inr rfl) (Nat.le_refl _) (by simp) (by simp)
-  | stopHunt mac =>
+  | stopHunt mac _ip =>
     simp only [step] at hs; cases hs
     exact keep _ rfl (fun _ h => List.mem_of_mem_erase h) rfl rfl (by simp) (by simp)
   | startHunt mac v =>
